@@ -1,0 +1,40 @@
+package storage
+
+// Event kinds passed to the verification hooks (see verif_off.go / verif_on.go).
+// The hooks are no-ops unless the package is built with `-tags verif`.
+const (
+	verifFlusherWake = iota
+	verifFlusherDone
+)
+
+const (
+	verifLockWantShared = iota
+	verifLockRelShared
+	verifLockWantExcl
+	verifLockRelExcl
+)
+
+const (
+	verifAccFetch = iota
+	verifAccSetCache
+	verifAccAppend
+	verifAccIncrLastKey
+	verifAccIncrLSN
+	verifAccSetPageTableRoot
+)
+
+const (
+	verifWalWriteLen = iota
+	verifWalWriteBody
+	verifWalSync
+	verifWalFlushDone
+)
+
+const (
+	verifLRUSetHit = iota
+	verifLRUSetNew
+	verifLRUEvict
+	verifLRURefuse
+	verifLRUGetHit
+	verifLRUGetMiss
+)
